@@ -114,6 +114,10 @@ CDen(f) == SShift(SMul(Sci(f.v, 0), Inv(f.dv)), PExp[f.np] - PExp[f.dp])
 
 Named == [M    |-> [nu |-> "mol", du |-> "L", e |-> 0],   mM |-> [nu |-> "mol", du |-> "L", e |-> -3],
           uM   |-> [nu |-> "mol", du |-> "L", e |-> -6],  m  |-> [nu |-> "mol", du |-> "g", e |-> -3],
+          nM   |-> [nu |-> "mol", du |-> "L", e |-> -9],  kM |-> [nu |-> "mol", du |-> "L", e |-> 3],
+          MM   |-> [nu |-> "mol", du |-> "L", e |-> 6],   \* prefixed molal: mm = mmol/kg, um = umol/kg, km = kmol/kg
+          mm   |-> [nu |-> "mol", du |-> "g", e |-> -6],  um |-> [nu |-> "mol", du |-> "g", e |-> -9],
+          km   |-> [nu |-> "mol", du |-> "g", e |-> 0],
           pww  |-> [nu |-> "g", du |-> "g", e |-> -2],    pvv |-> [nu |-> "L", du |-> "L", e |-> -2],
           pwv  |-> [nu |-> "g", du |-> "L", e |-> 1]]     \* %w/v: g per 100 mL = 10 g/L
 NDen(f) == SShift(Sci(f.v, 0), Named[f.name].e)
